@@ -1,6 +1,7 @@
 /-
-Line-protocol engine `pkireload` (C42): sequences of configurations through `PKI.reloadCerts` /
-`PKI.reloadCAPool` (inline PEM), virtual wall clock starting at 2000-01-01T00:00:00Z.
+Line-protocol engine `pkireload` (C42): sequences of configurations (inline PEM) through `NewPKIFromConfig`
+(initial = 1: a failed first load leaves no PKI) and the reload callback it registers (`ReloadConfigString`),
+virtual wall clock starting at 2000-01-01T00:00:00Z.
 
 ops (CERT = 12-token descriptor; `src` = `<version>:<hex of the encoding>`, ignored here):
   reset                      -> ok
@@ -76,7 +77,7 @@ def field (impl : String) (k : String) : String :=
 /-- The property oracle on the implementation's answer: a reload never changes curve or overlay networks
 (nor anything at all when it is refused); a refused CA bundle keeps the previous trust store. `prev` is the
 state in use before the op. -/
-def reloadVerdict (prev : PKI) (bl : List String) (initial : Bool) (impl : String) : String :=
+def reloadVerdict (prev : PKI) (bl : List String) (initial : Bool) (wantPool : Option Pool) (impl : String) : String :=
   let toks := impl.splitOn " "
   let certsOk := toks.headD "" == "ok"
   let caTok := (toks.drop 1).headD ""
@@ -86,6 +87,13 @@ def reloadVerdict (prev : PKI) (bl : List String) (initial : Bool) (impl : Strin
   match prev.cs with
   | none => "ok"
   | some cur =>
+    -- whatever became of the host certificate, an acceptable CA bundle / blocklist is the one in use afterwards
+    let stale := match wantPool with
+      | some pl =>
+        let w := showState { cs := none, pool := some pl } bl
+        field impl "cas" != field w "cas" || field impl "bl" != field w "bl"
+      | none => false
+    if stale then "bad reload-trust-store-stale" else
     if !certsOk then
       (if keep "iv" && keep "curve" && keep "nets" && keep "v1" && keep "v2" then
         (if caTok.startsWith "err" && !(keep "cas") then "bad reload-bad-ca-replaced-pool" else "ok")
@@ -126,7 +134,10 @@ def step (s : St) (args : List String) (impl : String) : St × Out :=
           let initial := initial == "1"
           if !initial && s.pki.cs.isNone then (s, { model := "not-loaded", verdict := "ok", tag := "triv:not-loaded" }) else
           let now := s.now + sleep
-          let (p', ce, cae) := s.pki.reload now cfg initial
+          -- the first load builds a new PKI; when any part of it is refused there is none
+          let (p', ce, cae) := (if initial then ({} : PKI) else s.pki).reload now cfg initial
+          let p' := if initial && (ce.isSome || (match cae with | some (some _) => true | _ => false)) then ({} : PKI) else p'
+          let wantPool := match loadCAPool now cfg with | .ok pl => some pl | .error _ => none
           let c1 := match ce with | none => "ok" | some e => "err:" ++ loadErrStr e
           let c2 := match cae with | none => "-" | some none => "ok" | some (some e) => "err:" ++ caErrStr e
           let m := s!"{c1} {c2} {showState p' blocklist}"
@@ -134,7 +145,7 @@ def step (s : St) (args : List String) (impl : String) : St × Out :=
             | some a, some b => s!"{if a.v1.isSome then "1" else ""}{if a.v2.isSome then "2" else ""}>{if b.v1.isSome then "1" else ""}{if b.v2.isSome then "2" else ""}"
             | _, _ => "init"
           let tag := if initial then s!"initial:{c1}" else if c1 == "ok" then s!"reload:ok:{trans}:{c2}" else s!"reload:{c1}"
-          ({ pki := p', now := now }, { model := m, verdict := reloadVerdict s.pki blocklist initial impl, tag := tag })
+          ({ pki := p', now := now }, { model := m, verdict := reloadVerdict s.pki blocklist initial wantPool impl, tag := tag })
     | _, _, _ => (s, badOp)
   | _ => (s, badOp)
 
